@@ -14,6 +14,10 @@ use std::fmt::Display;
 
 type Result<T, E = CodecError> = std::result::Result<T, E>;
 
+#[cfg(eigerco_lumina_verif)]
+#[path = "codec_verif_hooks.rs"]
+pub mod verif_hooks;
+
 #[derive(Debug, thiserror::Error)]
 pub(crate) enum CodecError {
     #[error("Request decode failed: {0}")]
